@@ -44,6 +44,10 @@ type HCase struct {
 	Default string   `json:"default,omitempty"` // API default produces ("" keeps application/json)
 	Ops     []HOp    `json:"ops"`
 	Reqs    []HReq   `json:"reqs"`
+	// LateDefault: after the handler has been built the application assigns this value to the API's default produces
+	// type. Whether the handler keeps the value it was built with or follows the API is not something the statement
+	// decides; it has to be one or the other for every request, in the 406 decision and in the chosen type alike.
+	LateDefault string `json:"late_default,omitempty"`
 }
 
 type jm = map[string]interface{}
@@ -68,6 +72,10 @@ func (c HCase) defaultType() string {
 // declared is the set of media types the operation can produce: its produces list (or the inherited one) plus the
 // API's default type. explicit reports whether the default type is itself a declared entry.
 func (c HCase) declared(op int) (offers []string, explicit bool) {
+	return c.declaredWith(op, c.defaultType())
+}
+
+func (c HCase) declaredWith(op int, def string) (offers []string, explicit bool) {
 	src := c.Ops[op].Produces
 	if len(src) == 0 {
 		src = c.Global
@@ -78,12 +86,12 @@ func (c HCase) declared(op int) (offers []string, explicit bool) {
 			seen[p] = true
 			offers = append(offers, p)
 		}
-		if strings.EqualFold(p, c.defaultType()) {
+		if strings.EqualFold(p, def) {
 			explicit = true
 		}
 	}
 	if !explicit {
-		offers = append(offers, c.defaultType())
+		offers = append(offers, def)
 	}
 	return offers, explicit
 }
@@ -178,6 +186,20 @@ func CheckHandler(c HCase) *kit.Violation {
 	if v := kit.Guard("middleware.NewContext/RoutesHandler", func() { h = middleware.NewContext(doc, api, nil).RoutesHandler(nil) }); v != nil {
 		return v
 	}
+	if c.LateDefault != "" {
+		api.DefaultProduces = c.LateDefault // the application changes its mind after the handler exists
+	}
+	// the readings under which every answer so far makes sense: the default type the handler was built with / the one
+	// the API carries now
+	type reading struct {
+		def   string
+		alive bool
+		first string
+	}
+	readings := []*reading{{def: c.defaultType(), alive: true}}
+	if c.LateDefault != "" && c.LateDefault != c.defaultType() {
+		readings = append(readings, &reading{def: c.LateDefault, alive: true})
+	}
 	for ri, rq := range c.Reqs {
 		if rq.Op < 0 || rq.Op >= len(c.Ops) {
 			continue
@@ -187,8 +209,6 @@ func CheckHandler(c HCase) *kit.Violation {
 				return kit.Failf("malformed case: request %d", ri)
 			}
 		}
-		offers, explicit := c.declared(rq.Op)
-		adm := admissible(rq.Ranges, offers, c.defaultType(), explicit)
 		lines := Lines(rq.Ranges)
 		req := httptest.NewRequest(http.MethodGet, fmt.Sprintf("/p%d", rq.Op), nil)
 		if len(lines) > 0 {
@@ -197,32 +217,55 @@ func CheckHandler(c HCase) *kit.Violation {
 		rec := httptest.NewRecorder()
 		before := ran[rq.Op]
 		if v := kit.Guard("API handler", func() { h.ServeHTTP(rec, req) }); v != nil {
-			return kit.Failf("request %d declared=%q Accept=%q: %s", ri, offers, lines, v.Msg)
+			return kit.Failf("request %d Accept=%q: %s", ri, lines, v.Msg)
 		}
 		runs := ran[rq.Op] - before
 		ct := rec.Result().Header.Get("Content-Type")
-		desc := fmt.Sprintf("request %d GET /p%d declared=%q (API default %q) Accept=%q -> status %d, Content-Type %q, body %q, handler ran %d time(s)",
-			ri, rq.Op, offers, c.defaultType(), lines, rec.Code, ct, clipStr(rec.Body.String(), 200), runs)
-		if len(adm) == 0 {
-			if rec.Code != http.StatusNotAcceptable {
-				return kit.Failf("MISSING-406 %s; the header admits none of the declared types", desc)
+		judge := func(def string) string {
+			offers, explicit := c.declaredWith(rq.Op, def)
+			adm := admissible(rq.Ranges, offers, def, explicit)
+			desc := fmt.Sprintf("request %d GET /p%d declared=%q (API default %q) Accept=%q -> status %d, Content-Type %q, body %q, handler ran %d time(s)",
+				ri, rq.Op, offers, def, lines, rec.Code, ct, clipStr(rec.Body.String(), 200), runs)
+			if len(adm) == 0 {
+				if rec.Code != http.StatusNotAcceptable {
+					return fmt.Sprintf("MISSING-406 %s; the header admits none of the declared types", desc)
+				}
+				if runs != 0 {
+					return fmt.Sprintf("HANDLER-RAN-ON-406 %s", desc)
+				}
+				return ""
 			}
-			if runs != 0 {
-				return kit.Failf("HANDLER-RAN-ON-406 %s", desc)
+			if rec.Code == http.StatusNotAcceptable {
+				return fmt.Sprintf("SPURIOUS-406 %s; admissible: %v", desc, keysOf(adm, offers))
 			}
-			continue
+			if runs != 1 {
+				return fmt.Sprintf("HANDLER-NOT-RUN %s; admissible: %v", desc, keysOf(adm, offers))
+			}
+			if rec.Code != c.Ops[rq.Op].code() {
+				return fmt.Sprintf("STATUS %s; want %d", desc, c.Ops[rq.Op].code())
+			}
+			if !adm[ct] {
+				return fmt.Sprintf("CONTENT-TYPE %s; admissible: %v", desc, keysOf(adm, offers))
+			}
+			return ""
 		}
-		if rec.Code == http.StatusNotAcceptable {
-			return kit.Failf("SPURIOUS-406 %s; admissible: %v", desc, keysOf(adm, offers))
+		anyAlive := false
+		for _, rd := range readings {
+			if !rd.alive {
+				continue
+			}
+			if msg := judge(rd.def); msg != "" {
+				rd.alive, rd.first = false, msg
+			} else {
+				anyAlive = true
+			}
 		}
-		if runs != 1 {
-			return kit.Failf("HANDLER-NOT-RUN %s; admissible: %v", desc, keysOf(adm, offers))
-		}
-		if rec.Code != c.Ops[rq.Op].code() {
-			return kit.Failf("STATUS %s; want %d", desc, c.Ops[rq.Op].code())
-		}
-		if !adm[ct] {
-			return kit.Failf("CONTENT-TYPE %s; admissible: %v", desc, keysOf(adm, offers))
+		if !anyAlive {
+			if len(readings) == 1 {
+				return kit.Failf("%s", readings[0].first)
+			}
+			return kit.Failf("DEFAULT-TYPE-INCONSISTENT: the API's default produces type was %q when the handler was built and is %q since; no single reading explains the answers so far.\n with the type it was built with: %s\n with the type the API carries now: %s",
+				c.defaultType(), c.LateDefault, readings[0].first, readings[1].first)
 		}
 	}
 	return nil
@@ -257,6 +300,12 @@ func GenHandler(t *rapid.T) HCase {
 	}
 	if rapid.IntRange(0, 3).Draw(t, "otherdefault") == 0 {
 		c.Default = rapid.SampledFrom([]string{"text/plain", "application/xml"}).Draw(t, "default")
+	}
+	if rapid.IntRange(0, 3).Draw(t, "late-default") == 0 {
+		c.LateDefault = rapid.SampledFrom([]string{"text/plain", "application/xml", "application/json", "text/csv"}).Draw(t, "late-default-type")
+		if c.LateDefault == c.defaultType() {
+			c.LateDefault = ""
+		}
 	}
 	nops := rapid.IntRange(1, 3).Draw(t, "nops")
 	for i := 0; i < nops; i++ {
@@ -311,6 +360,9 @@ func ClassifyHandler(c HCase) (bool, []string) {
 	}
 	if c.Default != "" {
 		l["API default is not JSON"] = true
+	}
+	if c.LateDefault != "" {
+		l["API default type reassigned after the handler was built"] = true
 	}
 	for i, op := range c.Ops {
 		if len(op.Produces) == 0 {
